@@ -7,30 +7,30 @@ HERE = os.path.dirname(os.path.dirname(os.path.abspath(__file__)))
 
 CLAIMS = {
  'C01': dict(
-  technique='abstract interpretation of the token protocol and of every render method over abstract tokens, call-graph raise inventory, automata agreement of sibling regexes, partial-operation lint that reports established failures only',
-  text='Decides necessary conditions of totality and termination for all bundled renderer configurations: every instantiable token class has a render handler; every render method, interpreted on abstract tokens of every class routed to it (children possibly empty), has no raising path; the simulated start->read->construct protocol of every token class has no raising path and every read() that returns a result has net-consumed a line (None: cursor restored), every explored iteration of a cursor loop advances the cursor; reachable raise statements are the documented refusals; List.start accepted implies ListItem.parse_marker matches (automata); partial operations whose failure is established (tuple arity, refuted backing invariant) and loops with a back-edge path that cannot change the condition are reported - sites neither discharged nor refuted are listed as undecided. Absence of all exceptions and termination of the regex engine are not decided.',
+  technique='abstract interpretation of the token protocol and of every render method over abstract tokens, call-graph raise inventory, automata agreement of sibling regexes, ambiguity analysis of every regular expression on its position automaton, partial-operation lint that reports established failures only, bounded simulation of the delimiter stack surgery',
+  text='Decides necessary conditions of totality and termination for all bundled renderer configurations: every instantiable token class has a render handler; every render method, interpreted on abstract tokens of every class routed to it (children possibly empty), has no raising path; the simulated start->read->construct protocol of every token class has no raising path and every read() that returns a result has net-consumed a line (None: cursor restored), every explored iteration of a cursor loop advances the cursor; reachable raise statements are the documented refusals; List.start accepted implies ListItem.parse_marker matches (automata); no regular expression of the package can consume a text in two different ways inside a loop (exponential backtracking: exponential ambiguity of the position automaton, loops around loops); process_emphasis neither raises nor loops on the bounded delimiter stacks of C06; partial operations whose failure is established (tuple arity, refuted backing invariant, or a guard constant on which folding the function raises at that subscript) and loops with a back-edge path that cannot change the condition are reported - sites neither discharged nor refuted are listed as undecided. Absence of all exceptions and polynomial blow-up of the regex engine are not decided.',
   note='Trusted: CPython ast as parser; reviewed arguments in sa/audit/c01.json discharge sites but their absence is not an alarm (DESIGN.md 8.6).',
   ref='2/C01'),
  'C03': dict(
   technique='decision-table agreement of the paragraph-interruption predicates with the CommonMark table; interpretation of the container and definition readers over abstract lines with a concrete cursor (line accounting)',
-  text='Decides the clauses named in the anchors: the set of block classes that may interrupt a paragraph and the condition under which each does equal the CommonMark 0.30 table; Paragraph.read consults all of them on every continuation line under both settings of the setext switch; ListItem.read treats a line as a new item only after the interruption predicates declined it; container readers hand back trailing blank lines they drop and never a line they keep (tight/loose signal); Footnote.read hands back exactly the lines its definitions did not use; the cursor protocol these rest on; quote marker stripping and list content offset (shared with C04). The compositional parse itself is not decided.',
+  text='Decides the clauses named in the anchors: the set of block classes that may interrupt a paragraph and the condition under which each does equal the CommonMark 0.30 table; Paragraph.read consults all of them on every continuation line under both settings of the setext switch; ListItem.read treats a line as a new item only after the interruption predicates declined it; container readers hand back trailing blank lines they drop and never a line they keep (tight/loose signal); Footnote.read hands back exactly the lines its definitions did not use; a blank line after the only block of the last item of a list does not make the list loose; a line closes a fenced code block exactly when the rule of the specification says so, and the container readers hand the nested tokenizer the content lines the specification defines (CodeFence.read, Quote.read, ListItem.read folded on one line of every class of those rules); the cursor protocol these rest on; quote marker stripping and list content offset (shared with C04). The compositional parse itself is not decided.',
   note='Trusted: transcription of CommonMark 0.30 4.1-4.10/5.2 in sa/spec/interrupt.py.', ref='2/C03'),
  'C04': dict(
   technique='interpretation of the container readers on abstract lines: state in force at the nested tokenize_block call, provenance of buffer elements, affine marker arithmetic derived from the regex layout, line bookkeeping of the nested call',
-  text='Decides necessary conditions of "a container wraps the parse unchanged": the nested call receives the active token list and runs under unmodified parser configuration; quote buffer elements are the source line or the line minus its marker; list content offset is I+D+N for N<=4 spaces after the marker, else I+D+1, with the marker layout read off ListItem.pattern; the nested start line is the source line of the first buffer element for readers entered anywhere in their buffer; table row offsets; interruption predicates are consulted inside containers as at top level; the Document entry treats no position of the input specially. Equality of the nested parse for all texts is not decided.',
+  text='Decides necessary conditions of "a container wraps the parse unchanged": the nested call receives the active token list (the object in force at the call, not one captured at import time) and runs under unmodified parser configuration; the readers, folded on one source of every class of the marker / continuation / blank-line / laziness rules, hand over the content lines the specification defines; a container constructor yields a token on every path or on none; quote buffer elements are the source line or the line minus its marker; list content offset is I+D+N for N<=4 spaces after the marker, else I+D+1, with the marker layout read off ListItem.pattern; the nested start line is the source line of the first buffer element for readers entered anywhere in their buffer; table row offsets; interruption predicates are consulted inside containers as at top level; the Document entry treats no position of the input specially. Equality of the nested parse for all texts is not decided.',
   note='One known finding (Quote.read disables setext recognition for nested content; by design upstream).', ref='2/C04'),
  'C05': dict(
   technique='def-before-use of class-level scratch state by path enumeration of start(); dispatch loop and cursor protocol decided by interpretation with abstract token types; hand-off buffer discipline',
-  text='Decides that no block reader can observe anything left behind by an earlier block: every scratch attribute read() loads is assigned on every accepting path of start() (optional regex groups may be None); in the interpreted dispatch loop a successful start() is followed at once by read() of the same type, nothing called in between reaches a start(), and every block is scanned from the first token type on the line at the cursor; cursor fields are touched only by FileWrapper, set_pos only with a value from get_pos of the same activation, backstep never moves before the first line; the span-level hand-off buffer is emptied before every scan and its driver calls the producer on every path. Equality of the parsed blocks as a runtime fact is not decided.',
+  text='Decides that no block reader can observe anything left behind by an earlier block: every scratch attribute read() loads is assigned on every accepting path of start() (optional regex groups may be None); in the interpreted dispatch loop a successful start() is followed at once by read() of the same type, nothing called in between reaches a start(), and every block is scanned from the first token type on the line at the cursor; cursor fields are touched only by FileWrapper, set_pos only with a value from get_pos of the same activation, backstep never moves before the first line; the span-level hand-off buffer is emptied before every scan and its driver calls the producer on every path; parser configuration a reader switches while it runs is restored on every path out of it. Equality of the parsed blocks as a runtime fact is not decided.',
   note='Trusted: audited exception Footnote.read `_index -=` (sa/audit/c05.json).', ref='2/C05'),
  'C06': dict(
   technique='abstract interpretation over finite domains (neighbour classes, lengths mod 3, affine lengths) compared with transcribed spec tables; interpretation of process_emphasis on bounded families of delimiter stacks with symbolic positions against a transcription of the specification algorithm',
   text='Decides the table-shaped parts of the delimiter algorithm exhaustively (the four flanking predicates over all abstract neighbourhoods equal CommonMark 6.2; closed_by equals rules 9/10 over lengths mod 3 and flags, on lengths nothing rewrites; len(type)=number=end-start through remove()) and the stack surgery for bounded families: process_emphasis, interpreted on every delimiter stack of 2-3 runs, on 4-5 both-flanking runs and on 5 single-character runs (thorough: also 4 runs of length 1-2, 5-6 both-flanking, 6 single-character; 87 740 stacks), records exactly the matches (spans, kinds) of the specification procedure. Stacks outside the families, the scanner that builds the stack and links inside emphasis are not decided.',
   note='Both earlier findings (rule of three on remaining lengths; opener bound per character) were repaired in /repo f2abd12 and verified by the same simulation. Trusted: sa/spec/flanking.py and the transcription spec_emphasis in sa/rules/c06.py.', ref='2/C06'),
  'C07': dict(
-  technique='call-graph reachability; interpretation of the definition writers over abstract definitions with an abstract definitions table; provenance counting of unescaping steps; decision table of match_link_image',
-  text='Decides the structural mechanisms behind reference resolution: the inline tokenizer is unreachable from any block start/read; Document.footnotes is written only from the block phase, only by setdefault or where the key was found absent, in source order, with key, destination and title of the same definition; Footnote.read hands its matches over in scan order; store and lookups use one normaliser that case-folds and collapses whitespace; destination and title reach Link/Image through exactly one unescaping for references and inline links alike; definitions produce no token; match_link_image yields a reference match only if the lookup succeeded, literal text only after the shortcut lookup failed, and no shortcut when a label follows. Agreement of the scanners with the spec grammar is not decided.',
-  note='Trusted: over-approximate call graph (name-based fallback) - sound for unreachability.', ref='2/C07'),
+  technique='call-graph reachability; interpretation of the definition writers over abstract definitions with an abstract definitions table; constant folding of the label normaliser and of the definition-to-token chain on the tables of the specification (label matching; character references; backslash escapes); decision table of match_link_image',
+  text='Decides the structural mechanisms behind reference resolution: the inline tokenizer is unreachable from any block start/read; Document.footnotes is written only from the block phase, only by setdefault or where the key was found absent, in source order, with key, destination and title of the same definition; Footnote.read hands its matches over in scan order; store and lookups use one normaliser, which - folded on one label of every class of the matching rule of the specification - case-folds (full folding, not lower-casing), strips and collapses spaces, tabs and line endings; destination and title reach Link/Image with character references (only HTML5 names and numeric references with their semicolon) and backslash escapes resolved exactly once, for references and inline links alike (writer and constructors folded on the character-reference table); definitions produce no token; match_link_image yields a reference match only if the lookup succeeded, literal text only after the shortcut lookup failed, and no shortcut when a label follows. Agreement of the scanners with the spec grammar is not decided.',
+  note='Trusted: over-approximate call graph (name-based fallback) - sound for unreachability; the stdlib html.unescape is evaluated as the model of itself under the regex the program installs (sa/charref.py).', ref='2/C07'),
  'C08': dict(
   technique='charset-taint dataflow with per-character sanitiser images + template skeleton analysis with an HTML tokenizer state machine (abstract interpretation of every render method)',
   text='For HtmlRenderer under every option valuation decides that no document-derived character that is special in a hole\'s context (text: < > &; double-quoted attribute: additionally ") reaches the output raw - including values that one render method stores in a renderer attribute and another reads back; every template is tag-balanced with void tags self-closed; raw document text is returned only for HtmlBlock/HtmlSpan, which are registered only under process_html_tokens, and with it off render() of such a token fails on every path; the <p>-suppression stack is restored on every normal path. Sanitiser effects are computed from their bodies. Round-trip of escaped text is not decided.',
@@ -49,23 +49,23 @@ CLAIMS = {
   note='Trusted: the frozen classification table (confirmed by reading); statements without calls/subscripts/arithmetic cannot raise.', ref='2/C11'),
  'C12': dict(
   technique='ownership (who-may-write) rule for parent links, child-kind inference from abstract constructor facts, regex quantifier bounds, reader/writer agreement for repr/AST attributes',
-  text="Decides shape invariants that follow from what constructors assign: parent links are stamped only by the children setter and a token's children are never mutated in place (receiver kinds resolved through callers); no token object is listed twice; each class's children kind equals the documented kind; heading level is bounded 1-6 by the regex group that produces it and list start derives from the first item's marker; every repr/AST attribute is assigned on all constructor paths; get_ast copies values and recurses over header and children, empty containers included; traverse yields each node once with its parent and depth, value-equal leaves included. Finiteness as a runtime fact is not decided.",
+  text="Decides shape invariants that follow from what constructors assign: parent links are stamped only by the children setter and a token's children are never mutated in place (receiver kinds resolved through callers); no token object is listed twice and a token class's __new__ returns a new object on every call (and a token on all paths or on none); each class's children kind equals the documented kind; heading level is bounded 1-6 by the regex group that produces it, the setext level is read off the underline character whatever surrounds it, and list start is the number of the first item's marker (constructors folded on one marker / underline of every class); every repr/AST attribute is assigned on all constructor paths; get_ast copies values and recurses over header and children, empty containers included; traverse yields each node once with its parent and depth, value-equal leaves included. Finiteness as a runtime fact is not decided.",
   note='Trusted: frozen child-kind table transcribed from the class docstrings.', ref='2/C12'),
  'C13': dict(
   technique='symbolic-cursor typestate on enumerated paths of the readers (line-origin consistency of every start_line hand-off), affine offsets',
-  text='Decides that the line number attached to a block is, on every path, the number of the line at the cursor when the block starts: captured between start() and read() in the dispatch loop; every nested tokenize_block receives as start_line the source line of the first element of its buffer, for readers entered anywhere in their buffer; table row and cell offsets; the cursor protocol (line_number after each line, end of input); Document hands the tokenizer its input lines one for one. That readers consume exactly the lines of their block is not decided.',
+  text='Decides that the line number attached to a block is, on every path, the number of the line at the cursor when the block starts: captured between start() and read() in the dispatch loop; every nested tokenize_block receives as start_line the source line of the first element of its buffer, for readers entered anywhere in their buffer; table row and cell offsets; a constructor that is handed a line number stores that value on every path; the cursor protocol (line_number after each line, end of input); Document hands the tokenizer its input lines one for one. That readers consume exactly the lines of their block is not decided.',
   note='Trusted: semantics of str.splitlines(keepends=True).', ref='2/C13'),
  'C14': dict(
   technique='regex literal -> NFA -> product-automaton language inclusion against transcribed CommonMark block-start languages (shortest witness), plus path enumeration of start()',
-  text='Decides the over-acceptance clauses for prose: for every regex-based block start the prefix-match language over all well-formed lines is included in the CommonMark 0.30 language (Heading, ThematicBreak, CodeFence incl. its backtick filter, list markers, setext underline); a table needs a second line that is a delimiter row as a whole (GFM grammar); the strikethrough pattern matches only ~~...~~; starts use anchored .match and return truthy only when the pattern matched; Quote/HtmlBlock starts accept at most three leading spaces; a list marker interrupts a paragraph only as the spec says; flanking rows for intraword/isolated delimiters; gap text reaches the fallback token through html.unescape only; a reader that gives up restores the cursor; no markup of earlier text is attributed to later text. Inertness of inline punctuation in general is not decided.',
-  note='Trusted: sa/spec/blockstart.py; alphabet abstraction (printable ASCII, tab, newline, one non-ASCII letter).', ref='2/C14'),
+  text='Decides the over-acceptance clauses for prose: for every regex-based block start the prefix-match language over all well-formed lines is included in the CommonMark 0.30 language (Heading, ThematicBreak, CodeFence incl. its backtick filter, list markers, setext underline); a table needs a second line that is a delimiter row as a whole (GFM grammar); the strikethrough pattern matches only ~~...~~; starts use anchored .match and return truthy only when the pattern matched; Quote/HtmlBlock starts accept at most three leading spaces; a list marker interrupts a paragraph only as the spec says; flanking rows for intraword/isolated delimiters; gap text reaches the fallback token through one resolver of character references and nothing else, and the tokenizer - folded on one text of every class of the table of character references of the specification - resolves exactly the numeric references and HTML5 entity names that end with a semicolon, once; a reader that gives up restores the cursor; no markup of earlier text is attributed to later text. Inertness of inline punctuation in general is not decided.',
+  note='Trusted: sa/spec/blockstart.py; alphabet abstraction (printable ASCII, tab, newline, one non-ASCII letter); the stdlib html.unescape evaluated as the model of itself (sa/charref.py).', ref='2/C14'),
  'C15': dict(
   technique='string-suffix abstract domain + provenance (def-use) from each entry point to the single line normaliser',
   text='Decides that all ways of supplying text funnel into one normaliser and nothing else touches the text on the way: Document.__init__ completes a missing newline and is the identity on lines that have one, for str via splitlines(keepends=True); markdown() builds Document(input) and returns render(document) on every path whatever the input; cli.convert, convert_file and __main__ pass their input through unchanged, open files as UTF-8 text and write the UTF-8 encoded result. Behaviour of splitlines on exotic separators is outside the property.',
   note='Trusted: semantics of str.splitlines(keepends=True) and str.endswith.', ref='2/C15'),
  'C16': dict(
   technique='order-domain abstract interpretation: relation/eval_tokens/eval_new_child/__lt__/make_tokens interpreted over every total preorder of the symbolic offsets and precedence orders (exhaustive finite tables, sibling cross-check)',
-  text='Decides the resolution algorithm as a finite table: relation() over all 112 consistent preorders equals precede/contain/conflict as the property states; eval_tokens and eval_new_child realise higher-precedence-wins with ties to the earlier match and nest iff parse_inner; candidates are ordered by start only with a stable sort; make_tokens tiles gap/token/tail and builds children over the parse group; custom tokens are scoped by the registry discipline (shared with C11). Tiling of actual texts by actual regex matches is not decided.',
+  text='Decides the resolution algorithm as a finite table: relation() over all 112 consistent preorders equals precede/contain/conflict as the property states; eval_tokens and eval_new_child realise higher-precedence-wins with ties to the earlier match and nest iff parse_inner; candidates are ordered by start only with a stable sort; make_tokens tiles gap/token/tail and builds children over the parse group; the parse span of a candidate is the span of the parse group of its class within its match, whatever parse_inner says; custom tokens are scoped by the registry discipline (shared with C11) and markdown() enters and leaves the renderer it instantiates on every path. Tiling of actual texts by actual regex matches is not decided.',
   note='One known finding (match after the parse group is ignored regardless of precedence).', ref='2/C16'),
  'C17': dict(
   technique='charset-taint dataflow with per-character sanitiser images + template skeleton analysis with a TeX lexer (abstract interpretation of every render method)',
@@ -77,7 +77,7 @@ CLAIMS = {
   note='Trusted: Python MRO semantics as modelled.', ref='2/C18'),
  'C19': dict(
   technique='boolean-atom truth table of the collection predicate with an abstract list of earlier entries, def-use of the collected tuple, dispatch of every heading class to the collecting method',
-  text='Decides the collection predicate, order and wiring: the condition guarding the append in render_heading equals not(omit_title and level==1) and level<=depth and no filter matches over all valuations and independently of what was collected before; every heading token class is dispatched to the collecting method in every TocRenderer configuration; headings are appended once in render order as (level, text stripped of tags) and consumed with the same arity; indentation is 4*(level-1-[omit_title]). Nesting of the rebuilt list is not decided.',
+  text='Decides the collection predicate, order and wiring: the condition guarding the append in render_heading equals not(omit_title and level==1) and level<=depth and no filter matches over all valuations and independently of what was collected before; a renderer built by the constructor of TocRenderer itself judges every heading of a sequence by the same options (what the constructor stores survives a use); every heading token class is dispatched to the collecting method in every TocRenderer configuration; headings are appended once in render order as (level, text stripped of tags) and consumed with the same arity; indentation is 4*(level-1-[omit_title]). Nesting of the rebuilt list is not decided.',
   note='Thin claim.', ref='2/C19'),
 }
 
